@@ -242,11 +242,12 @@ type blockRec struct {
 }
 
 type appView struct {
-	Nonces   map[string]uint64 `json:"nonces"`
-	Balances map[string]string `json:"balances"`
-	Storage  map[string]string `json:"storage"`
-	KV       map[string]string `json:"kv"`
-	Receipts map[string]string `json:"receipts"`
+	Nonces    map[string]uint64 `json:"nonces"`
+	Balances  map[string]string `json:"balances"`
+	Storage   map[string]string `json:"storage"`
+	KV        map[string]string `json:"kv"`
+	KVHistory map[string]string `json:"kv_history"`
+	Receipts  map[string]string `json:"receipts"`
 }
 
 type dumpRec struct {
